@@ -1,7 +1,14 @@
 import PewProofs.Register
 import PewTheorems.C11
 
-/-! # C12 — property theorems (statements only depend on `PewModel.Register` / `PewModel.Overlap`) -/
+/-! # C12 — property theorems (statements only depend on `PewModel.Register` / `PewModel.Overlap`)
+
+All correlation theorems are stated and proved for **every number of dimensions**: `circ` and `lin`
+are nested sums over the axis list, the one-axis facts (no wrap-around with `s = a + b − 1`,
+`dec (enc l) = l`, re-indexing `m = n + l`) are lemmas of `PewProofs.Register`, and each theorem
+lifts them by induction over the axes — padding, encode/decode and the sums are separable.
+The link "`irfftn(rfftn a · conj (rfftn b), s)` = `circ`" (correlation theorem of the DFT) is
+trusted, not proved. -/
 namespace Pew.Register
 
 /-- **no wrap-around in n dimensions**: with `s = a.shape + b.shape − 1` the circular correlation
@@ -56,7 +63,7 @@ theorem decode_encode (sa sb : List Nat) (l : List Int)
   induction sa generalizing sb l with
   | nil =>
     cases sb with
-    | nil => cases l <;> simp_all [inLagBox, padShape, encode, decode]
+    | nil => cases l <;> simp_all [inLagBox, decode]
     | cons _ _ => simp [inLagBox] at hl
   | cons a as ih =>
     cases sb with
@@ -100,22 +107,24 @@ theorem register_argmax (a b : Img) (l : List Int)
 
 example : inLagBox [4, 3] [2, 5] [-1, 2] = true ∧ inLagBox [4, 3] [2, 5] [3, -4] = true := by decide
 
-/-- non-vacuity of `register_argmax`: an impulse at 2 registered against a single pixel -/
-example : register ⟨[4], fun i => if i = [2] then 1 else 0⟩ ⟨[1], fun _ => 1⟩ = [2] := by
-  apply register_argmax
-  · simp
-  · simp
-  · decide
-  · intro l' h hne
-    match l', h, hne with
-    | [], h, _ => simp [inLagBox] at h
-    | _ :: _ :: _, h, _ => simp [inLagBox] at h
-    | [x], h, hne =>
-      simp only [inLagBox, Bool.and_eq_true, decide_eq_true_eq] at h
-      have hx : x ≠ 2 := fun e => hne (by rw [e])
-      simp only [xcorr, lin, sumRange, zext, inBoxI]
-      have : x = 0 ∨ x = 1 ∨ x = 3 := by omega
-      rcases this with e | e | e <;> subst e <;> simp
+/-- non-vacuity: an impulse at 2 registered against a single pixel satisfies the hypotheses of
+`register_argmax` and `swap_negates` -/
+theorem impulse_unique (l' : List Int)
+    (h : inLagBox [4] [1] l' = true) (hne : l' ≠ [2]) :
+    xcorr ⟨[4], fun i => if i = [2] then 1 else 0⟩ ⟨[1], fun _ => 1⟩ l'
+      < xcorr ⟨[4], fun i => if i = [2] then 1 else 0⟩ ⟨[1], fun _ => 1⟩ [2] := by
+  match l', h, hne with
+  | [], h, _ => simp [inLagBox] at h
+  | _ :: _ :: _, h, _ => simp [inLagBox] at h
+  | [x], h, hne =>
+    simp only [inLagBox, Bool.and_eq_true, decide_eq_true_eq] at h
+    have hx : x ≠ 2 := fun e => hne (by rw [e])
+    simp only [xcorr, lin, sumRange, zext, inBoxI]
+    have : x = 0 ∨ x = 1 ∨ x = 3 := by omega
+    rcases this with e | e | e <;> subst e <;> simp
+
+example : register ⟨[4], fun i => if i = [2] then 1 else 0⟩ ⟨[1], fun _ => 1⟩ = [2] :=
+  register_argmax _ _ [2] (by simp) (by simp) (by decide) impulse_unique
 
 /-- the code's expressions place `b` as the anchor names it: flush with the near side (offset 0),
 flush with the far side (`offset + b = a`), or centred with offset `⌊(a − b)/2⌋` -/
@@ -224,6 +233,9 @@ theorem swap_negates (a b : Img) (l : List Int)
   rw [← e, map_neg_neg]
 
 
+example : register ⟨[1], fun _ => 1⟩ ⟨[4], fun i => if i = [2] then 1 else 0⟩ = [-2] :=
+  (swap_negates _ _ [2] (by simp) (by simp) (by decide) impulse_unique).2
+
 /-- **zero lag is a maximum of the self-correlation**, every dimension: `x[l] ≤ x[0] = Σ a²` -/
 theorem xcorr_self_le (a : Img) (l : List Int) (hl : l.length = a.shape.length) :
     xcorr a a l ≤ xcorr a a (List.replicate a.shape.length 0) := by
@@ -267,6 +279,26 @@ theorem register_self (a : Img) (hpa : ∀ x ∈ a.shape, 0 < x) :
   exact this
 
 
+/-- **zero lag is the unique maximum of the self-correlation** of an image that is not identically
+zero, in every dimension: `x[l] < x[0]` for every lag `l ≠ 0` (finite support: a non-zero image
+cannot coincide with a translate of itself) -/
+theorem xcorr_self_lt (a : Img) (i : List Nat) (hi : inBox i a.shape = true) (hA : a.get i ≠ 0)
+    (l : List Int) (hl : l.length = a.shape.length) (hne : l ≠ List.replicate a.shape.length 0) :
+    xcorr a a l < xcorr a a (List.replicate a.shape.length 0) := by
+  have hpos := energy_pos a.shape a.get i hi hA
+  have e := xcorr_self_zero a.shape a.get
+  unfold xcorr
+  rw [e]
+  by_contra hcon
+  have hz := energy_zero_of_tight_self a.shape a.get l hl hne (by linarith)
+  linarith
+
+/-- non-vacuity: the 1-D image `[0, 3]` at lag 1 -/
+example : xcorr ⟨[2], fun i => if i = [1] then 3 else 0⟩ ⟨[2], fun i => if i = [1] then 3 else 0⟩ [1]
+    < xcorr ⟨[2], fun i => if i = [1] then 3 else 0⟩ ⟨[2], fun i => if i = [1] then 3 else 0⟩ [0] :=
+  xcorr_self_lt ⟨[2], fun i => if i = [1] then 3 else 0⟩ [1] (by decide) (by simp) [1] rfl (by decide)
+
+
 section merge
 open Pew.Overlap
 
@@ -307,6 +339,37 @@ theorem merge_reproduces_scene (m : Mode) (hm : m ≠ .sum) (fill : V) (scene : 
       simpa using hany
     rw [hz, if_neg hany]
     simp
+
+/-- the offset normalisation of `overlap_arrays` turns windows of a scene into windows of the same
+scene in canvas coordinates (origin moved to the per-axis minimum offset) -/
+theorem normalise_windows (ndim : Nat) (scene : Idx → Rat) (ws : List (List Int × List Nat))
+    (hoff : ∀ w ∈ ws, w.1.length = ndim) :
+    normalise ndim (ws.map fun w => window scene w.1 w.2)
+      = ws.map (fun w =>
+          window (fun q => scene (List.zipWith (· + ·) q (minOffset ndim (ws.map fun w => window scene w.1 w.2))))
+            (Pew.Overlap.sub w.1 (minOffset ndim (ws.map fun w => window scene w.1 w.2))) w.2) := by
+  simp only [normalise, List.map_map]
+  apply List.map_congr_left
+  intro w hw
+  simp only [Function.comp, window]
+  congr 1
+  funext i
+  rw [zip_add_assoc i w.1 _ (by rw [minOffset_length]; exact hoff w hw)]
+
+/-- **register, then merge, end to end**: the canvas that `overlap_arrays` fills for windows of one
+scene placed at their true offsets (normalised as the code does) is that scene in canvas
+coordinates on the union of the windows and the fill elsewhere (`replace` and `mean` modes) -/
+theorem merge_normalised_reproduces_scene (m : Mode) (hm : m ≠ .sum) (fill : V) (ndim : Nat)
+    (scene : Idx → Rat) (ws : List (List Int × List Nat)) (hoff : ∀ w ∈ ws, w.1.length = ndim) (p : Idx) :
+    mech m fill (normalise ndim (ws.map fun w => window scene w.1 w.2)) p
+      = sceneOnUnion (fun q => scene (List.zipWith (· + ·) q (minOffset ndim (ws.map fun w => window scene w.1 w.2))))
+          fill (normalise ndim (ws.map fun w => window scene w.1 w.2)) p := by
+  rw [normalise_windows ndim scene ws hoff]
+  have := merge_reproduces_scene m hm fill
+    (fun q => scene (List.zipWith (· + ·) q (minOffset ndim (ws.map fun w => window scene w.1 w.2))))
+    (ws.map fun w => (Pew.Overlap.sub w.1 (minOffset ndim (ws.map fun w => window scene w.1 w.2)), w.2)) p
+  rw [List.map_map] at this
+  exact this
 
 end merge
 
